@@ -16,6 +16,7 @@ fn main() {
     let mut out = Out::create(&args[2]);
     match args[1].as_str() {
         "bitbuffer" => vharness::bitops::record(&kv, &mut out),
+        "prim" => vharness::prim::record(&kv, &mut out),
         other => {
             eprintln!("unknown domain {}", other);
             std::process::exit(2);
